@@ -243,6 +243,9 @@ func (P *Program) guardsOf(fn *ssa.Function) *funcGuards {
 				if b.Comment == "rangeindex.loop" || b.Comment == "rangeiter.loop" {
 					lits[i].Kind = "rangeloop"
 				}
+				if bo, isB := ifi.Cond.(*ssa.BinOp); isB && bo.Op == token.LSS && fullIndexLoopBound(bo.X) != nil {
+					lits[i].Kind = "rangeloop" // for i := 0; i < len(x); i++
+				}
 				if isJumpCond(ifi.Cond) {
 					lits[i].Kind = "rangefunc"
 				}
